@@ -49,8 +49,18 @@ def main():
             res.discharged = 0
             res.broke("proof", "Props/%s.v" % pid, pr["out"])
         res.components["proof_build_s"] = round(pr["wall"], 1)
-        mod.correspondence(res, a.tier, seed)
-        mod.search(res, a.tier, seed, deep=bool(res.broken))
+        for phase, run in (("correspondence", lambda: mod.correspondence(res, a.tier, seed)), ("search", lambda: mod.search(res, a.tier, seed, deep=bool(res.broken)))):
+            try:
+                run()
+            except Exception as e:
+                tb = traceback.format_exc()
+                if C.REPO + "/ibicus" in tb:
+                    # the implementation itself raised on an input the check considers valid: a concrete failure
+                    res.witness(dict(component="ibicus (raised during the %s phase)" % phase,
+                                     statement="the implementation raised on an input that the check generates as valid; re-running the check with this seed and tier reproduces it",
+                                     input=dict(seed=seed, tier=a.tier, phase=phase), observed=tb[-1800:], expected=pid, **{"class": "implementation-raised:" + type(e).__name__}))
+                else:
+                    res.broke("harness-error", "exception in " + phase, tb)
     except Exception:
         res.broke("harness-error", "exception", traceback.format_exc())
     checker = "make theories/Props/%s.vo && coqc -Q theories IV theories/Props/%s.v (cwd /verif/coq; full .vo build of all dependencies incl. regenerated Gen/*.v)" % (pid, pid)
